@@ -198,6 +198,7 @@ def behaviour(run, drv, kinds, meta):
     for c in (["D1", "S1"] if run.tier == "thorough" else ["D1"]):
         plan += [(c, n, op, "lazy") for n, op in lazy_names]
     reqs, pend = [], []
+    reqs2, pend2 = [], []
     coverage = {}
     try:
         for clsname, name, is_op, recv in plan:
@@ -237,7 +238,16 @@ def behaviour(run, drv, kinds, meta):
                     run.count("behaviour.argbuild_failed", f"{name}:{cand.label}:{type(e).__name__}")
                     continue
                 st_td, r_td = B.invoke(tdB, name, aB, kB, is_op, on_class)
+                nt_before = B.nt_desc(tcA)
                 st_tc, r_tc = B.invoke(tcA, name, aA, kA, is_op, on_class)
+                if st_tc == "ok" and not on_class and kind in ("wrap", "nowrap", "copy"):
+                    # the wrapper's pruning: `_non_tensordict` afterwards = model dropStale(before, keys of `_tensordict` afterwards)
+                    try:
+                        keys_after = [k for k in tcA._tensordict.keys() if isinstance(k, str)]
+                        reqs2.append(sx("c15.dropstale", [[k, ["leaf", "t"]] for k in keys_after], nt_before))
+                        pend2.append(([clsname, name, cand.label + ("@lazy" if recv == "lazy" else "")], B.nt_sorted_desc(tcA)))
+                    except Exception:  # noqa: BLE001
+                        pass
                 label = cand.label + ("@class" if on_class else "") + ("@lazy" if recv == "lazy" else "")
                 case = [clsname, name, label]
                 run.case(tuple(case), nontrivial=(st_td == "ok"))
@@ -270,6 +280,9 @@ def behaviour(run, drv, kinds, meta):
                     bad = B.fields_readable(tcA)
                     if bad:
                         why = f"after the call fields {bad} of the receiver no longer read as the underlying entries"
+                if why is None and isinstance(r_tc, (tuple, list)):
+                    why = B.pieces_independent(r_tc, tcA)
+                    run.count("oracle.tuple_pieces_checked", name)
                 if why:
                     run.oracle_fail(site, case, why, fingerprint=f"{name}:{label}:{why[:60]}")
                 else:
@@ -280,6 +293,8 @@ def behaviour(run, drv, kinds, meta):
     for (case, kind, actual), ans in zip(pend, answers):
         run.count("behaviour.kind", kind)
         run.corr(f"wrapper[{kind}]", case, actual, parse_sx(ans))
+    for (case, actual), ans in zip(pend2, drv.ask_many(reqs2)):
+        run.corr("wrapper[placeholder pruning]", case, actual, parse_sx(ans))
     never = sorted(n for n, ok in coverage.items() if not ok)
     run.count("behaviour.methods_with_successful_td_call", "yes", sum(1 for v in coverage.values() if v))
     run.count("behaviour.methods_with_successful_td_call", "no", len(never))
@@ -331,6 +346,8 @@ def main():
     S.typed_fields(run, drv)
     S.items_stream(run, drv)
     S.containers(run)
+    S.update_stream(run, drv)
+    S.tuple_pieces_stream(run)
     S.option_probes(run, kinds)
     debug_dump(run)
     run.finish("proof")
